@@ -441,6 +441,52 @@ fn check_large_set(tape: &[u8], gates: &Gates, stats: &mut Stats, counting: bool
     Ok(())
 }
 
+/// "... or on the particular run": a unit whose one fault is a recursion (2..4 declarations that
+/// contain or alias each other, also through a mix of both) analysed eight times in this process
+/// and through fresh projects - every run reports the same code at the same place.  (Which member
+/// of a cycle is named may depend on the declaration order - a cycle has no single location - so
+/// only repetitions of ONE arrangement are compared.)
+fn check_cycle_runs(tape: &[u8], stats: &mut Stats, counting: bool) -> Result<(), Failure> {
+    let mut t = Tape::new(tape);
+    let n = 2 + t.below(3);
+    let mut adj = vec![vec![false; n]; n];
+    // a cycle through all n nodes plus a few extra edges
+    for i in 0..n {
+        adj[i][(i + 1) % n] = true;
+    }
+    for _ in 0..t.below(3) {
+        let (a, b) = (t.below(n), t.below(n));
+        adj[a][b] = true;
+    }
+    let g = crate::props::c07::Graph { n, adj };
+    let salt = t.u64();
+    let text = match t.below(3) {
+        0 => crate::props::c07::realise_fb(&g, salt, false).0,
+        1 => crate::props::c07::realise_type(&g, salt, false).0,
+        _ => crate::props::c07::realise_mixed(&g, salt, false).map(|x| x.0).unwrap_or_else(|| crate::props::c07::realise_type(&g, salt, false).0),
+    };
+    let chunks = vec![text];
+    let arr = Arrangement { files: vec![vec![0]] };
+    let first = observe_analyze(&arr, &chunks).map_err(|(k, d)| Failure::new("cycle-runs", &k, d, json!({"chunks": chunks})))?;
+    if counting {
+        stats.case(true, hash_str(&chunks[0]));
+        stats.class(if first.codes.iter().any(|c| c == "P0010" || c == "P0013") { "cycle-runs.recursion-reported" } else { "cycle-runs.other-outcome" });
+    }
+    for r in 0..7 {
+        let o = observe_analyze(&arr, &chunks).map_err(|(k, d)| Failure::new("cycle-runs", &k, d, json!({"chunks": chunks})))?;
+        if o != first {
+            return Err(Failure::new("cycle-runs", "run-differs", format!("run 0: codes {:?} at {:?}; run {}: codes {:?} at {:?}", first.codes, first.locs, r + 1, o.codes, o.locs), json!({"chunks": chunks})));
+        }
+    }
+    for r in 0..3 {
+        let (ok, codes) = observe_project(&arr, &chunks).map_err(|(k, d)| Failure::new("cycle-runs", &k, d, json!({"chunks": chunks})))?;
+        if ok != first.ok || codes != first.codes {
+            return Err(Failure::new("cycle-runs", "run-differs", format!("analyze: ok={} codes {:?}; fresh project #{}: ok={} codes {:?}", first.ok, first.codes, r, ok, codes), json!({"chunks": chunks})));
+        }
+    }
+    Ok(())
+}
+
 /// Scope-leak grid (exhaustive, deterministic): a name that is declared in ONE declaration (as a
 /// variable of any class, or as a function block instance) is used in ANOTHER declaration that
 /// does not declare it.  owner kind x variable class x (plain variable | instance) x user kind;
@@ -552,7 +598,7 @@ pub fn run(ctx: &Ctx) -> i32 {
         ctx.tier,
         ctx.seed,
         "exploration",
-        "units of <= 5 top-level declarations with cross references (valid, one planted fault, or one declaration written twice), one chunk per declaration: ALL permutations of the chunks, ALL set partitions into <= 3 files x ALL file orders, plus random permuted partitions; verdict (and for single-fault units the code multiset and every mappable primary label as (code, chunk, offset in chunk, length)) must equal the canonical single file. analyze() with explicit library order decides; Project::semantic() on fresh in-memory projects (4 per sampled arrangement: fresh HashMap seeds) and `ironplcc check` in fresh processes with permuted arguments are sampled. Plus the exhaustive scope-leak grid: a name declared in one declaration (function / function block / program x 6 variable classes x plain variable / function block instance) and used in another one that does not declare it must be rejected (P0015 / P0021) in every permutation and partition. Large sets: units of 6..30 declarations, one file per declaration, 5 random file orders each through analyze() and through a fresh in-memory project. Non-trivial: >= 3 declarations, >= 2 reference edges, arrangement != canonical; distinct by (arrangement, chunks).",
+        "units of <= 5 top-level declarations with cross references (valid, one planted fault, or one declaration written twice), one chunk per declaration: ALL permutations of the chunks, ALL set partitions into <= 3 files x ALL file orders, plus random permuted partitions; verdict (and for single-fault units the code multiset and every mappable primary label as (code, chunk, offset in chunk, length)) must equal the canonical single file. analyze() with explicit library order decides; Project::semantic() on fresh in-memory projects (4 per sampled arrangement: fresh HashMap seeds) and `ironplcc check` in fresh processes with permuted arguments are sampled. Plus the exhaustive scope-leak grid: a name declared in one declaration (function / function block / program x 6 variable classes x plain variable / function block instance) and used in another one that does not declare it must be rejected (P0015 / P0021) in every permutation and partition. Recursive units (cycles of 2..4 declarations through instances, aliases, structure elements and mixes) analysed eight times and through fresh projects: same code at the same place in every run. Large sets: units of 6..30 declarations, one file per declaration, 5 random file orders each through analyze() and through a fresh in-memory project. Non-trivial: >= 3 declarations, >= 2 reference edges, arrangement != canonical; distinct by (arrangement, chunks).",
     );
     let gates = ctx.gates_for("C06");
     let off = gates.off_list();
@@ -568,6 +614,8 @@ pub fn run(ctx: &Ctx) -> i32 {
         let g = Gates::with_off(off.clone());
         check_large_set(tape, &g, stats, counting)
     });
+    rep.add(out);
+    let out = run_tapes("C06R", ctx.seed ^ 0xc7c1e, ctx.threads, ctx.tier.pick(3_000, 60_000), 24, |tape, stats, counting| check_cycle_runs(tape, stats, counting));
     rep.add(out);
     crate::fuzzrun::tape_campaign(ctx, &mut rep, "C06", &gates);
     rep.replay_witnesses(&ctx.findings, &|w| witness(w));
